@@ -1,5 +1,6 @@
 """C06: formatting is idempotent (same inputs/configurations as C05; second pass must be the identity)."""
 import os
+import re
 import shutil
 import subprocess
 import sys
@@ -8,6 +9,9 @@ sys.path.insert(0, os.path.dirname(__file__))
 import _fmt  # noqa: E402
 import _fmtbin  # noqa: E402
 import vlib  # noqa: E402
+
+
+BLANK_INSIDE = re.compile(r"[{(][ \t]*\n[ \t]*\n|\n[ \t]*\n[ \t]*[})]")
 
 
 def signature(c, o):
@@ -35,6 +39,11 @@ def signature(c, o):
     width = c["cfg"].get("layout", {}).get("max_line_width", 120)
     if "--" in l1 or "--" in l2:
         return "C06/reflow/next-to-comment"
+    # the source has a blank line directly after an opening / before a closing bracket (and no comment): pass 1 printed the
+    # bracket pair expanded because of it, pass 2 (blank line gone or no longer counted) joins it onto one line
+    if BLANK_INSIDE.search(c["text"]) and "--" not in c["text"] and l1.rstrip()[-1:] in ("{", "(") \
+            and l2.startswith(l1.rstrip()) and len(l2.rstrip()) > len(l1.rstrip()):
+        return "C06/reflow/blank-line-inside-brackets"
     if width > 40 and path[:1] == ["CallArgList"] and ("function" in l1 or "function" in l2):
         return "C06/reflow/lambda-argument"         # argument list with a function argument: one per line, then hugged
     return "C06/reflow/%s" % ("narrow-width" if width <= 40 else "default-width")
@@ -96,12 +105,14 @@ def run(ctx):
     ctx.note("cli_files_written_then_checked", len(cli))
     ctx.note("cli_files_reported_different_after_write", default_cfg_drift)
     first = lambda pre: [c for c in cases if c["src"].startswith(pre)][:1]
-    for c in cases[:2] + first("std/") + first("focus/comment") + first("focus/doc") + first("focus/quote"):
+    for c in cases[:2] + first("std/") + first("focus/comment") + first("focus/doc") + first("focus/quote") + first("focus/blank"):
         ctx.sample({"src": c["src"], "text": c["text"][:200],
                     "cfg": c["cfg"] if c["src"].startswith("focus/") else _fmt.model_cfg(c["cfg"])})
     for sig, ds in sorted(found.items()):
         ctx.violation(sig, {"count": len(ds), "sources": sorted({d["src"] for d in ds})[:12], "first": ds[0], "more": ds[1:3]})
     ctx.rule("a case = (program, configuration) as in C05 (incl. the FmtFocus.tla families: trailing-comment groups x "
-             "comment options pairwise / full, doc blocks x emmy_doc options, escape strings x quote_style); non-trivial = the first pass changed the text; "
+             "comment options pairwise / full, doc blocks x emmy_doc options, escape strings x quote_style, blank lines directly after an "
+             "opening / before a closing bracket or block keyword without comments (family blank), `stat;` + comments + `(`-statement); "
+             "non-trivial = the first pass changed the text; "
              "accepted iff the second pass returns its input byte for byte (judged as an `idem` run of FmtTokens.tla)")
     ctx.assume("signature of a drift = (whitespace-only or not, enclosing statement kind, innermost node kind at the first differing byte)")
